@@ -98,6 +98,12 @@ class PUnit:
             if rep.error:
                 res.undecided.append(f"UNSUPPORTED {c.target}: {rep.error}")
                 continue
+            if getattr(rep, "stale_ghost", None):
+                # a ghost update is anchored to the source text of a statement; when that statement was renamed or rewritten the update is
+                # not made and the invariants that speak about the ghost state cannot hold: that is a stale contract, not a verdict on the code
+                res.undecided.append(f"STALE CONTRACT {c.target}: ghost anchor(s) {rep.stale_ghost} no longer occur in the function body "
+                                     f"(statement renamed or rewritten); re-anchor the contract -- undecided, not a violation")
+                continue
             if not rep.obligations:
                 res.errors.append(f"zero obligations generated for {c.target} (vacuous contract)")
                 continue
